@@ -24,7 +24,7 @@ from ..algebra import run_trace_leg
 from . import c04
 
 LEVEL = 'model_checking'
-AUTO_PLACEMENTS = ['auto', 'auto_closure', 'auto_attr', 'auto_attr2', 'auto_method', 'auto_param', 'auto_param_method', 'auto_param_nested', 'auto_class_call', 'auto_relay', 'auto_first_unresolvable', 'auto_first_incompatible', 'auto_loop_taint_after', 'auto_compr_shadow', 'auto_nested_def_own_stars', 'auto_nested_async_own_stars', 'auto_wraps', 'auto_deco_noop', 'auto_param_default', 'auto_hint', 'auto_hint_partial', 'auto_carrier1', 'auto_carrier2']
+AUTO_PLACEMENTS = ['auto', 'auto_closure', 'auto_attr', 'auto_attr2', 'auto_method', 'auto_param', 'auto_param_method', 'auto_param_nested', 'auto_partial_nothing', 'auto_class_call', 'auto_relay', 'auto_first_unresolvable', 'auto_first_incompatible', 'auto_loop_taint_after', 'auto_compr_shadow', 'auto_nested_def_own_stars', 'auto_nested_async_own_stars', 'auto_wraps', 'auto_deco_noop', 'auto_param_default', 'auto_hint', 'auto_hint_partial', 'auto_carrier1', 'auto_carrier2']
 MINE = ('C05', 'C07')        # clause prefixes this check reports; C06_* clauses of the shared events belong to check C06
 
 
